@@ -258,6 +258,13 @@ def run(ctx):
         explore(ctx, art)
     if art.get("race"):
         race_run(ctx, art["race"], race_lines(ctx))
+    # the block-wise layer over a tracking pool (harness/c04 TestC04Pool): two goroutines meet in the reassembly table, the
+    # expiry sweep runs while a block is being appended - no message may be released twice or reach the handler after its release
+    from . import c04
+    with common.Lock():
+        t4 = common.build_test(ctx, "c04")
+    if t4:
+        c04.pool_check(ctx, t4, "C12", "ownership")
     return common.finish(ctx)
 
 
@@ -276,6 +283,20 @@ def replay(ctx, rep):
         bad = c08.etag_violations(lines, outs, deregs)
         for k, what in bad:
             print("%s: %s" % (lines[k], what))
+        if bad:
+            print("VIOLATION property=C12 replay=(replayed) still reproduces")
+        return 1 if bad else 0
+    if rep.get("scenario") and rep.get("test") == "TestC04Pool":
+        import os
+        import subprocess
+        with common.Lock():
+            exe = common.build_test(ctx, "c04")
+        outp = os.path.join(ctx.work, "pool_replay.out")
+        env = dict(os.environ, VERIF_OUT=outp, VERIF_SEED=str(rep.get("seed", ctx.seed)), VERIF_SCENARIO=rep["scenario"], VERIF_TIER="thorough")
+        p = subprocess.run([exe, "-test.run", "^TestC04Pool$"], cwd=ctx.work, env=env, stdout=subprocess.PIPE, stderr=subprocess.STDOUT, text=True, timeout=300)
+        out = open(outp).read().splitlines() if os.path.exists(outp) else []
+        print("\n".join(out) or p.stdout[-1500:])
+        bad = any("violates" in l for l in out) or p.returncode != 0
         if bad:
             print("VIOLATION property=C12 replay=(replayed) still reproduces")
         return 1 if bad else 0
